@@ -6,4 +6,7 @@ Definition model_verdict := category_filter src_cfg.
 Definition model_rules := parse_rules src_cfg.
 (* the same constants with the pre-repair matching semantics (classification of LF failures only) *)
 Definition legacy_verdict := category_filter (with_line_anchors src_cfg).
-Extraction "category_model.ml" model_verdict model_rules legacy_verdict spec_verdict spec_rules prop_c15_b.
+(* one object answering a history of messages (address, name text, type) *)
+Definition model_answers := object_answers src_cfg.
+Extraction "category_model.ml" model_verdict model_rules legacy_verdict spec_verdict spec_rules prop_c15_b
+  model_answers spec_answers prop_c15_seq_b.
